@@ -447,3 +447,28 @@ def rule_results_not_shared(check, rule, al=None):
         else:
             check.violation(rule, site_of(cs, cs.node), 'copy_sources copies the map but shares the per-parameter lists', key=key,
                             witness="copy_sources(m)['a'] is m['a']")
+
+
+def rule_classification_fresh(check, rule, al=None):
+    """The bucket containers handed out by sort_params (positional-only list, positional-or-keyword list, keyword-only map)
+    are created by that call.  _mask pops from them and _embed/_Merger results are built from them in place; containers that
+    are a handle on something stored on the signature object (a cache of the classification, the signature's own mapping)
+    are edited for every later user of that signature: the second retrieval of the same wrapper already sees fewer
+    parameters."""
+    al = al or Alias(check)
+    repo = check.repo
+    sp = repo.func(SIG + ':sort_params')
+    check.analysed(sp)
+    ra = al.ret_alias.get(sp.key, {})
+    names = {0: 'positional-only list', 1: 'positional-or-keyword list', 3: 'keyword-only map'}
+    shared = set(ra.get('*') or set())
+    for pos, what in names.items():
+        key = '%s|fresh-bucket|%d' % (sp.key, pos)
+        got = set(ra.get(pos) or set()) | shared
+        if got:
+            check.violation(rule, site_of(sp, sp.node), 'the %s returned by sort_params is a handle on %s, not a container of its own: '
+                            'mask() consumes parameters from it in place, so the signature object it came from is altered for every later '
+                            'retrieval' % (what, ', '.join(sorted(got))), key=key,
+                            witness='retrieve the signature of a forwards_to wrapper over a modifiers-wrapped inner twice: the second result has lost a parameter')
+        else:
+            check.holds(rule, site_of(sp, sp.node), 'the %s returned by sort_params is created by the call' % what, key=key)
